@@ -24,7 +24,7 @@ EXPLANATION = (
     "carries the time-step counter; the dap column carries the state's dap. C07.d: the planting / harvest year lists "
     "derived at initialisation are not mutated in place while another name aliases the same list. C07.e: crop_mature is set only under `<clock> >= crop.Maturity` "
     "where the clock's normal form is the state's own days-after-planting (under CalendarType == 1) or cumulative degree days (under "
-    "CalendarType == 2) of that day - not a delay-adjusted or otherwise shifted clock - and both calendar types are covered. C07.f: crop_mature, crop_dead, harvest_flag and dap are cleared on every path of the season reset (literal setattr loops are expanded). C07.g: the growing-season window excludes the step that starts on the harvest date (the summary is written on the step that ends on it), so the season's length does not depend on the off-season flag. C07.h: the day offset from which a missing harvest date is derived (kept as month/day; seasons recur yearly) has a constant bound <= 364 - a larger offset wraps round the year and cuts every season short. NOT decided: the "
+    "CalendarType == 2) of that day - not a delay-adjusted or otherwise shifted clock - and both calendar types are covered. C07.f: crop_mature, crop_dead, harvest_flag and dap are cleared on every path of the season reset (literal setattr loops are expanded). C07.g: the growing-season window excludes the step that starts on the harvest date (the summary is written on the step that ends on it), so the season's length does not depend on the off-season flag. C07.h: the day offset from which a missing harvest date is derived (kept as month/day; seasons recur yearly) has a constant bound <= 364 - a larger offset wraps round the year and cuts every season short. C07.j: both 'another season follows' tests of update_time have the normal form season_counter < n_seasons - 1 on the clock's current counter. NOT decided: the "
     "planting / harvest year arithmetic itself (numeric).")
 
 L = frozenset
@@ -497,6 +497,70 @@ def rule_i(chk, prog):
         chk.violation("C07.i", where, "check_model_is_finished(...)", "the termination test no longer reads the clock's step_end_time and simulation_end_date", loc=pt.loc(chk_call))
 
 
+def rule_j(chk, prog):
+    """C07.j (every scheduled season is started - sibling rule): update_time asks "is there a season after the current one?" in both of its
+    branches (the jump after a harvest, and the day-by-day advance used with off-season simulation and before the first planting date);
+    both tests have the normal form `season_counter < n_seasons - 1` over the clock's current season counter (locals substituted). A test
+    on `season_counter + 1` is off by one: the last scheduled season is never planted on the day-by-day path."""
+    from ..symb import Sym
+    from .. import affine as A
+    up = prog.func(UPDATE_FN)
+    chk.fn(up.key)
+    sym = Sym(prog, up)
+    cfg = sym.cfg
+    forms = []
+    for n in cfg.live_nodes():
+        c = n.ast
+        if n.kind != "test" or not (isinstance(c, ast.Compare) and len(c.ops) == 1 and isinstance(c.ops[0], (ast.Lt, ast.LtE, ast.Gt, ast.GtE))):
+            continue
+        if not any(isinstance(x, ast.Attribute) and x.attr == "n_seasons" for x in ast.walk(c)):
+            continue
+        st = sym.state_in.get(n.id)
+        if st is None:
+            continue
+        l, r = sym.nf(c.left, st), sym.nf(c.comparators[0], st)
+        op = c.ops[0]
+        if isinstance(op, (ast.Gt, ast.GtE)):
+            l, r = r, l
+        diff = A.add(l, r, -1)          # l - r  (< or <= 0)
+        forms.append((n, A.text(diff), "<" if isinstance(op, (ast.Lt, ast.Gt)) else "<="))
+    texts = {(t, o) for _, t, o in forms}
+    where = UPDATE_FN
+    for n, t, o in forms:
+        construct = f"{norm(n.ast)}  [{t} {o} 0]"
+        ok = o == "<" and "season_counter" in t and "n_seasons" in t and _affine_is(t, {"season_counter": 1, "n_seasons": -1}, 1)
+        if ok:
+            chk.ok("C07.j", where, construct, "season_counter < n_seasons - 1 on the clock's current counter")
+        else:
+            chk.violation("C07.j", where, construct, "this 'another season follows' test is not `season_counter < n_seasons - 1` on the current season counter: "
+                          "off by one, the last scheduled season is never started on this path (or a season beyond the schedule is looked up)", loc=prog.func(UPDATE_FN).loc(n.ast))
+    if len(texts) > 1:
+        chk.violation("C07.j", where, "sibling 'another season follows' tests", f"the branches of update_time disagree: {sorted(texts)}", loc=prog.func(UPDATE_FN).loc())
+    chk.floor("C07.j", len(forms), 2, "tests of the season counter against the number of seasons in update_time")
+
+
+def _affine_is(text: str, coefs, const) -> bool:
+    """does the printed normal form consist of exactly the given atoms (by suffix) with these integer coefficients plus the constant?"""
+    import re
+    terms = [t.strip() for t in text.replace("- ", "+ -").split("+") if t.strip()]
+    got, c0 = {}, 0
+    for t in terms:
+        m = re.match(r"^(-?\d+(?:\.\d+)?)\*(.+)$", t)
+        if m:
+            k, name = float(m.group(1)), m.group(2)
+        elif re.match(r"^-?\d+(?:\.\d+)?$", t):
+            c0 += float(t); continue
+        elif t.startswith("-"):
+            k, name = -1.0, t[1:]
+        else:
+            k, name = 1.0, t
+        key = next((a for a in coefs if name.strip().endswith(a)), None)
+        if key is None:
+            return False
+        got[key] = got.get(key, 0) + k
+    return all(abs(got.get(a, 0) - v) < 1e-9 for a, v in coefs.items()) and abs(c0 - const) < 1e-9
+
+
 def run(chk, prog, tier):
     rule_a(chk, prog)
     rule_b(chk, prog)
@@ -507,4 +571,5 @@ def run(chk, prog, tier):
     rule_g(chk, prog)
     rule_h(chk, prog)
     rule_i(chk, prog)
+    rule_j(chk, prog)
     chk.exhaustive = True
